@@ -111,6 +111,15 @@ def chain(chain_id, level):
     return part
 
 
+@m.memento_function(version="c1")
+def sibling(chain_id, level, tag):
+    """Another child of the partition that chain(chain_id, level - 1) returns."""
+    REC.hit("sibling", chain_id, level, tag)
+    part = _build_level(T.get(chain_id + "/sib/" + tag))
+    part._merge_parent = chain(chain_id, level - 1)
+    return part
+
+
 # ---- functions that are passed around as argument values (C04, C11) -----------------------
 @m.memento_function(version="r1")
 def callee2(a, b=None):
